@@ -9,6 +9,7 @@ pub mod c08;
 pub mod c09;
 pub mod c10;
 pub mod c12;
+pub mod c13;
 pub mod c18;
 pub mod c20;
 
@@ -64,6 +65,11 @@ pub fn lookup(id: &str) -> Option<Check> {
             id: "C12",
             level: "fault_enumeration",
             run: c12::run,
+        },
+        Check {
+            id: "C13",
+            level: "exploration",
+            run: c13::run,
         },
         Check {
             id: "C18",
